@@ -1421,6 +1421,196 @@ theorem detInv_step {c : Cfg} (hr : ∀ x, c.r x = x) {tp : Throughput} {st st' 
     · cases hk
 
 
+/-- target in ops/s, runner reports another unit: not yet fed, or one request every `clients / target` seconds -/
+def FbInv (tp : Throughput) (clients : Nat) (st : St) : Prop :=
+  ∃ first cw inner, st.sched = .unitAware .deterministic tp first cw inner ∧
+    ((first = true ∧ cw = none ∧ inner = .unthrottled) ∨
+     (first = false ∧ cw = some 1 ∧ inner = .det ((clients : Rat) / tp.value)))
+
+/-- the runner never reports in the unit of the target throughput -/
+def OtherUnit (c : Cfg) (tp : Throughput) (q : Req) : Prop :=
+  ∀ ops unit m, executeSingle c.abort q.out = .ret ops unit m → unit ++ ['/', 's'] ≠ tp.unit
+
+theorem fbInv_step {c : Cfg} (hr : ∀ x, c.r x = x) {tp : Throughput} (hu : tp.unit = opsPerS) {st st' : St} {q : Req} {rec : Rec}
+    (h : FbInv tp c.clients st) (hq : OtherUnit c tp q) (hs : step c st q = .sampled rec st') :
+    FbInv tp c.clients st' ∧ rec.innerAfter = st'.sched.inner ∧
+    (0 < rec.sample.ops → rec.innerAfter = .det ((c.clients : Rat) / tp.value)) := by
+  obtain ⟨ops, unit, m, sched', _, he, ha, hrec, hst'⟩ := step_sampled_inv hs
+  have hunit := hq ops unit m he
+  obtain ⟨first, cw, inner, hsch, hcase⟩ := h
+  subst hrec hst'
+  simp only [recOf, sampleOf, nextSt]
+  rcases afterRequest_ok ha with ⟨heq, hno⟩ | ⟨kind, tp', first', cw', inner', w', i, hsch', hpos, hcond, hw, hcl, hi, hs'⟩
+  · subst heq
+    refine ⟨⟨first, cw, inner, hsch, hcase⟩, trivial, ?_⟩
+    intro hops
+    rcases hno with hpl | ⟨kind, tp', first', cw', inner', hsch', hneg⟩
+    · rw [hpl] at hsch; cases hsch
+    · rw [hsch] at hsch'
+      injection hsch' with _ _ hf hc _
+      subst hf hc
+      have hcw : first = false ∧ cw = some ops := by
+        by_contra hcon
+        apply hneg
+        refine ⟨hops, ?_⟩
+        cases first with
+        | true => exact Or.inl rfl
+        | false => right; intro hcw; exact hcon ⟨rfl, hcw⟩
+      rcases hcase with ⟨hf, _, _⟩ | ⟨_, _, hin⟩
+      · rw [hcw.1] at hf; cases hf
+      · simp only [hsch, Sched.inner, hin]
+  · rw [hsch] at hsch'
+    injection hsch' with hk ht _ _ _
+    subst hk ht
+    have hw1 : w' = 1 := by
+      unfold effectiveWeight at hw
+      have hne : (unit ++ ['/', 's'] != tp.unit) = true := by simpa using hunit
+      have hops : (tp.unit == opsPerS) = true := by simp [hu]
+      simp only [hne, hops, if_true] at hw
+      injection hw with hw; exact hw.symm
+    subst hw1
+    rcases mkInner_ok hi with ⟨_, hi'⟩ | ⟨hk, _⟩
+    · have hi'' : i = .det ((c.clients : Rat) / tp.value) := by
+        rw [hi']; simp only [hr]; rw [wait_eq]; simp
+      subst hs'
+      exact ⟨⟨false, some 1, i, rfl, Or.inr ⟨rfl, rfl, hi''⟩⟩, trivial, fun _ => by simp only [Sched.inner, hi'']⟩
+    · cases hk
+
+/-! ## the Task object between loading and scheduling -/
+
+def isRead : TaskOp → Bool
+  | .readThroughput => true
+  | _ => false
+
+/-- the operations that change the object -/
+def dropReads (ops : List TaskOp) : List TaskOp := ops.filter (fun o => !isRead o)
+
+theorem applyOps_dropReads (r : Rat → Rat) : ∀ (ops : List TaskOp) (o o' : TaskObj),
+    applyOps r ops o = .ok o' → applyOps r (dropReads ops) o = .ok o' := by
+  intro ops
+  induction ops with
+  | nil => intro o o' h; exact h
+  | cons op ops ih =>
+    intro o o' h
+    simp only [applyOps] at h
+    split at h
+    · cases h
+    · rename_i o1 h1
+      cases op with
+      | readThroughput =>
+        simp only [applyOp] at h1
+        split at h1
+        · cases h1
+        · injection h1 with h1
+          subst h1
+          simpa [dropReads, isRead] using ih o o' h
+      | setThroughput v =>
+        simp only [dropReads, isRead, List.filter_cons, Bool.not_false, if_true, applyOps, h1]
+        exact ih o1 o' h
+      | setInterval v =>
+        simp only [dropReads, isRead, List.filter_cons, Bool.not_false, if_true, applyOps, h1]
+        exact ih o1 o' h
+      | testMode =>
+        simp only [dropReads, isRead, List.filter_cons, Bool.not_false, if_true, applyOps, h1]
+        exact ih o1 o' h
+
+theorem finishThroughput_unit {v : Option Rat} {u : Str} {tp : Throughput} (h : finishThroughput v u = some tp) : tp.unit = u := by
+  unfold finishThroughput at h
+  split at h
+  · split at h
+    · injection h with h; rw [← h]
+    · cases h
+  · cases h
+
+theorem word_ops : Word ['o', 'p', 's'] := by unfold Word; decide
+
+/-- the unit of a parsed target throughput is always `<word>/s` -/
+theorem targetThroughput_unit (r : Rat → Rat) (tt ti : PVal) (tp : Throughput) (h : targetThroughput r tt ti = .ok (some tp)) :
+    ∃ w, w ≠ [] ∧ Word w ∧ tp.unit = w ++ ['/', 's'] := by
+  have hops : ∃ w, w ≠ [] ∧ Word w ∧ opsPerS = w ++ ['/', 's'] := ⟨['o', 'p', 's'], by simp, word_ops, rfl⟩
+  unfold targetThroughput at h
+  split at h
+  · cases h
+  · split at h
+    · split at h
+      · cases h
+      · injection h with h; rw [finishThroughput_unit h]; exact hops
+    · split at h
+      · cases tt with
+        | str s =>
+          simp only at h
+          cases hm : matchThroughput s with
+          | none => rw [hm] at h; cases h
+          | some vu =>
+            obtain ⟨v, u⟩ := vu
+            rw [hm] at h
+            injection h with h
+            rw [finishThroughput_unit h]
+            obtain ⟨num, sp, w, rest, _, _, _, hne, hw, hu⟩ := (matchThroughput_spec s v u).mp hm
+            exact ⟨w, hne, hw, hu⟩
+        | int i => simp only at h; injection h with h; rw [finishThroughput_unit h]; exact hops
+        | float q => simp only at h; injection h with h; rw [finishThroughput_unit h]; exact hops
+        | none => simp only at h; cases h
+        | bool b => simp only at h; cases h
+        | other t => simp only at h; cases h
+      · cases h
+
+theorem digits_maxsize : Digits maxsizeStr := by unfold Digits; decide
+theorem digitsVal_maxsize : digitsVal maxsizeStr = 9223372036854775807 := by decide
+
+/-- `f"{sys.maxsize} {unit}"` parses back to `sys.maxsize` in that unit -/
+theorem maxsize_string_parses (w : Str) (hne : w ≠ []) (hw : Word w) :
+    targetThroughput id (.str (maxsizeStr ++ [' '] ++ (w ++ ['/', 's']))) .none
+      = .ok (some ⟨9223372036854775807, w ++ ['/', 's']⟩) := by
+  have hs : maxsizeStr ++ [' '] ++ (w ++ ['/', 's']) = maxsizeStr ++ ' ' :: (w ++ '/' :: 's' :: []) := by simp
+  rw [hs]
+  have hacc : Accepts (maxsizeStr ++ ' ' :: (w ++ '/' :: 's' :: [])) ((digitsVal maxsizeStr : Nat) : Rat) (w ++ ['/', 's']) :=
+    ⟨maxsizeStr, ' ', w, [], rfl, IsNumber.int maxsizeStr (by decide) digits_maxsize, by decide, hne, hw, rfl⟩
+  have hm := (matchThroughput_spec _ _ _).mpr hacc
+  have hne' : (maxsizeStr ++ ' ' :: (w ++ '/' :: 's' :: [])).isEmpty = false := by simp [maxsizeStr]
+  have hv : ((digitsVal maxsizeStr : Nat) : Rat) = 9223372036854775807 := by rw [digitsVal_maxsize]; norm_num
+  have hv0 : ((digitsVal maxsizeStr : Nat) : Rat) ≠ 0 := by rw [hv]; norm_num
+  simp only [targetThroughput, PVal.truthy, hne', hm, finishThroughput]
+  simp [hv]
+
+/-! ## where a `TaskAllocation` comes from -/
+
+theorem mem_rowFrom {m r : Nat} {x : Alloc.Entry} : ∀ (s : List Alloc.Element) (j : Nat), x ∈ Alloc.rowFrom m r s j →
+    ∃ e ∈ s, ∃ j', x ∈ Alloc.elemRow m e j' r
+  | [], _, h => by simp [Alloc.rowFrom] at h
+  | e :: es, j, h => by
+    simp only [Alloc.rowFrom, List.mem_append] at h
+    rcases h with h | h
+    · exact ⟨e, List.mem_cons_self, j, h⟩
+    · obtain ⟨e', he', j', h'⟩ := mem_rowFrom es (j + 1) h
+      exact ⟨e', List.mem_cons_of_mem _ he', j', h'⟩
+
+/-- every `TaskAllocation` of the matrix belongs to one element of the schedule: it is that element's `g`-th logical client and
+    its `total_clients` is that element's own client count — whatever the other elements of the schedule look like -/
+theorem allocation_entry_spec (s : List Alloc.Element) (row : List Alloc.Entry) (hrow : row ∈ Alloc.allocations s)
+    (sub : Alloc.Sub) (i g total : Nat) (h : Alloc.Entry.task sub i g total ∈ row) :
+    ∃ e ∈ s, (Alloc.expand e)[g]? = some (sub, i) ∧ total = e.clients := by
+  simp only [Alloc.allocations, List.mem_map, List.mem_range] at hrow
+  obtain ⟨r, _, rfl⟩ := hrow
+  simp only [Alloc.row, List.mem_cons] at h
+  rcases h with h | h
+  · cases h
+  · obtain ⟨e, he, j, hx⟩ := mem_rowFrom s 1 h
+    refine ⟨e, he, ?_⟩
+    simp only [Alloc.elemRow, List.mem_append, List.mem_map, List.mem_singleton] at hx
+    rcases hx with (⟨c, _, hc⟩ | hp) | hj
+    · unfold Alloc.taskEntry at hc
+      split at hc
+      · rename_i s' i' hg
+        injection hc with h1 h2 h3 h4
+        subst h1 h2 h3 h4
+        exact ⟨hg, rfl⟩
+      · cases hc
+    · split at hp
+      · simp at hp
+      · simp at hp
+    · cases hj
+
 /-! ## concrete runs for the non-vacuity examples -/
 
 def isOk : Except Err Final → Bool
